@@ -145,7 +145,7 @@ def check_modifiers(ctx, rep, tier):
         for body in iter_bodies(f):
             for bb in body['blocks']:
                 for st_ in bb['stmts']:
-                    if st_['k'] == 'assign' and st_['rv']['k'] == 'agg' and st_['rv'].get('path') in (ED, 'Modifiers'):
+                    if st_['k'] == 'assign' and st_['rv']['k'] == 'agg' and st_['rv'].get('path') == ED:
                         builds = True
         calls_new = any(t_['k'] == 'call' and ((t_['fn'].get('fn') or {}).get('resolved') or {}).get('path') == f_new['path']
                         for body in iter_bodies(f) for t_ in [bb['term'] for bb in body['blocks']])
@@ -288,18 +288,20 @@ def check_modifiers(ctx, rep, tier):
     return m
 
 
-def find_modifiers(v, out=None, depth=0):
-    """all Modifiers values inside a resolved value (not following references)"""
+def find_modifiers(v, out=None, depth=0, inside=False):
+    """the Modifiers values of every EventDecoder inside a resolved value (not following references); a free-standing
+    Modifiers value (a scratch copy built by some helper) is not a decoder's initial state"""
     if out is None:
         out = []
     if v is None or depth > 6:
         return out
     if v[0] == 'adt':
         if v[1] == 'Modifiers':
-            out.append(v)
+            if inside:
+                out.append(v)
         else:
             for x in v[3]:
-                find_modifiers(x, out, depth + 1)
+                find_modifiers(x, out, depth + 1, inside or v[1] == ED)
     return out
 
 
